@@ -7,6 +7,7 @@ import (
 
 	"go.miragespace.co/specter/spec/protocol"
 	"go.miragespace.co/specter/spec/rpc"
+	"go.miragespace.co/specter/util/verifhook"
 
 	"go.uber.org/zap"
 )
@@ -133,6 +134,7 @@ func (c *Client) RebuildTunnels(tunnels []Tunnel) {
 
 	diff := diffTunnels(c.Configuration.Tunnels, tunnels)
 	c.closeOutdatedProxies(diff...)
+	verifhook.At("client:rebuild:closed", 0)
 
 	c.Configuration.Tunnels = tunnels
 	if err := c.Configuration.writeFile(); err != nil {
@@ -163,6 +165,7 @@ func (c *Client) tunnelRemovalWrapper(tunnel Tunnel, fn func() error) error {
 	}
 
 	c.closeOutdatedProxies(tunnel)
+	verifhook.At("client:remove:closed", 0)
 
 	c.Configuration.Tunnels = append(c.Configuration.Tunnels[:index], c.Configuration.Tunnels[index+1:]...)
 	if err := c.Configuration.writeFile(); err != nil {
